@@ -68,8 +68,9 @@ class StubProgram:
         ev = RefEvaluator(kwargs, forbid_comm=True)
         res = {}
         for name in sorted(part.output_names):
+            # (a fresh C-ordered array, as a compiled kernel returns)
             res[name] = np.array(ev(self.partition.name_to_output[name]),
-                                 copy=True)
+                                 copy=True, order="C")
         if self.real is not None:
             # shadow: the REAL generated kernel of this part, compiled with gcc
             # through loopy's C target, must agree with the stub.  Evidence
@@ -88,6 +89,19 @@ class StubProgram:
         return None, res
 
 
+def shape_inputs(inputs, f_order=False, extra=False):
+    """what the USER hands to execute_distributed_partition: optionally every
+    array of two or more dimensions in Fortran order, optionally an entry
+    no part asks for"""
+    out = dict(inputs)
+    if f_order:
+        out = {k: (np.asfortranarray(v) if np.ndim(v) >= 2 else v)
+               for k, v in out.items()}
+    if extra:
+        out["unused_user_array"] = np.arange(3.0)
+    return out
+
+
 def _exc_class(e) -> str:
     return type(e).__name__
 
@@ -102,7 +116,10 @@ def run_case(recipe, cfg, chooser, *, real_codegen=False, shadow_exec=False,
     n = recipe["nranks"]
     npvals = mrecipe.evaluate_recipe(recipe)
     dags = [mrecipe.build_rank(recipe, r, npvals, faults) for r in range(n)]
-    inputs = [mrecipe.rank_inputs(recipe, r) for r in range(n)]
+    inputs = [shape_inputs(mrecipe.rank_inputs(recipe, r),
+                           f_order=cfg.get("f_order_inputs", False),
+                           extra=cfg.get("extra_inputs", False))
+              for r in range(n)]
     for f in faults:
         if f["kind"] == "drop-recv":
             c = recipe["comms"][f["comm"]]
